@@ -256,6 +256,36 @@ pub fn clash_cases(first: usize) -> Vec<(String, Vec<(ItemPath, Module)>, usize)
         ("vfunc-receiver-not-first", "pub type V { vftable { pub fn g(a: u32, &self) -> u32; }, }"),
         ("vfunc-without-receiver", "pub type V { vftable { pub fn g(a: u32) -> u32; }, }"),
         ("enum-values-wider-than-32-bits", "pub enum E: i64 { A = -9223372036854775804, B = 5000000000, C, }\npub enum F: u64 { A = 0x100000000, B, }\n#[align(8)] pub type T { pub e: E, pub f: F, }"),
+        ("void-by-value", "#[align(4)] pub type A { pub a: u32, pub v: void, pub b: u32, }"),
+        ("void-only-field", "pub type B { pub v: void, }\n#[align(4)] pub type D { pub b: B, pub c: u32, }"),
+        ("void-return", "pub type T { pub a: u32, }\nimpl T { #[address(0x1000)] pub fn f(&self) -> void; }"),
+        ("void-parameter", "pub type T { pub a: u32, }\nimpl T { #[address(0x1000)] pub fn f(&self, v: void); }"),
+        ("void-array", "#[align(1)] pub type T { pub a: [void; 4], pub b: u8, }"),
+        ("void-extern-value", "#[address(0x7000)] pub extern nothing: void;"),
+        ("type-named-like-builtin", "pub type u32 { pub a: u64, }\n#[align(8)] pub type Foo { pub x: u32, pub y: u32, }"),
+        ("enum-named-like-builtin", "pub enum u8: u32 { A, }\n#[align(4)] pub type Foo { pub x: u8, pub y: [u8; 3], }"),
+        ("extern-type-named-like-builtin", "#[size(16), align(8)] extern type u64;\npub type Foo { pub x: u64, }"),
+        ("zero-case-enum", "pub enum E: u32 { }"),
+        ("enum-over-user-type", "pub type S { pub v: u32, }\npub enum E: S { A = 0, }"),
+        ("enum-over-float", "pub enum E: f32 { A = 0, }"),
+        ("enum-over-bool", "pub enum E: bool { A = 0, B = 1, }"),
+        ("enum-over-pointer", "pub enum E: *const u8 { A = 0, }"),
+        ("enum-over-enum", "pub enum F: u8 { X, }\npub enum E: F { A = 0, }"),
+        ("conflict-note-names-collide", "pub type X { pub v: u32, }\npub type Y { #[base] pub b: X, }\npub type Foo { #[base] pub a_b: X, #[base] pub a: Y, }"),
+        ("conflict-note-names-collide-by-case", "pub type X { pub v: u32, }\npub type Foo { #[base] pub ab: X, #[base] pub aB: X, #[base] pub AB: X, }"),
+        ("renamed-internal-base-fn", "pub type A { pub v: u32, }\nimpl A { #[address(0x10)] pub fn _x(&self); }\npub type B { pub v: u32, }\nimpl B { #[address(0x20)] pub fn _x(&self); }\npub type D { #[base] pub a: A, #[base] pub b: B, }"),
+        ("base-field-with-underscore-and-clash", "pub type A { pub w: u32, }\nimpl A { #[address(0x10)] pub fn foo(&self) -> u32; }\npub type B { pub v: u32, }\nimpl B { #[address(0x20)] pub fn foo(&self) -> u32; }\npub type D { #[base] pub a: A, #[base] _b: B, }"),
+        ("raw-and-plain-type", "pub type r#Foo { pub a: u32, }\npub type Foo { pub a: u32, }"),
+        ("raw-and-plain-enum", "pub enum r#Foo: u32 { A, }\npub type Foo { pub a: u32, }"),
+        ("raw-and-plain-extern-value", "#[address(0x10)] pub extern foo: u32;\n#[address(0x20)] pub extern r#foo: u64;"),
+        ("raw-and-plain-parameter", "pub type T { pub a: u32, }\nimpl T { #[address(0x1000)] pub fn g(&self, a: u32, r#a: u32); }"),
+        ("raw-parameter-named-f", "pub type T { pub a: u32, }\nimpl T { #[address(0x1000)] pub fn g(&self, r#f: u32) -> u32; }"),
+        ("raw-and-plain-field", "pub type T { pub a: u32, pub r#a: u32, }"),
+        ("raw-and-plain-variant", "pub enum E: u32 { A, r#A, }"),
+        ("raw-and-plain-vfunc", "pub type V { vftable { pub fn go(&self); pub fn r#go(&self); }, }"),
+        ("raw-and-plain-impl-fn", "pub type T { pub a: u32, }\nimpl T { #[address(0x1000)] pub fn go(&self); #[address(0x1040)] pub fn r#go(&self); }"),
+        ("raw-and-plain-base-fn", "pub type A { pub w: u32, }\nimpl A { #[address(0x10)] pub fn bar(&self); }\npub type B { pub v: u32, }\nimpl B { #[address(0x20)] pub fn r#bar(&self); }\npub type D { #[base] pub a: A, #[base] pub b: B, }"),
+        ("raw-field-named-vftable", "pub type V { vftable { pub fn f(&self); }, pub r#vftable: u64, }"),
         ("type-named-like-module-segment", "pub type kclash { pub x: u64, }\npub type U { pub k: kclash, }"),
     ];
     let mut out = vec![];
